@@ -17,6 +17,7 @@ import (
 	_ "package-operator.run/internal/packages/zzverif/checks/c14"
 	_ "package-operator.run/internal/packages/zzverif/checks/c16"
 	_ "package-operator.run/internal/packages/zzverif/checks/c17"
+	_ "package-operator.run/internal/packages/zzverif/checks/c18"
 	_ "package-operator.run/internal/packages/zzverif/checks/c19"
 	_ "package-operator.run/internal/packages/zzverif/checks/c20"
 )
